@@ -204,17 +204,35 @@ func Observe(m storage.Message) ObsMsg {
 			o.To = append(o.To, t.Address)
 		}
 	}
+	// Two readers of the same message, opened one after the other and read interleaved (as two
+	// clients fetching one message at the same time do): each is a reader of its own.
 	r, err := m.Source()
 	if err != nil {
 		o.BodyErr = err.Error()
 		return o
 	}
-	b, err := io.ReadAll(r)
+	head := make([]byte, 7)
+	n, _ := io.ReadFull(r, head)
+	head = head[:n]
+	r2, err2 := m.Source()
+	if err2 != nil {
+		_ = r.Close()
+		o.BodyErr = "second reader: " + err2.Error()
+		return o
+	}
+	b2, err2 := io.ReadAll(r2)
+	_ = r2.Close()
+	rest, err := io.ReadAll(r)
 	_ = r.Close()
 	if err != nil {
 		o.BodyErr = err.Error()
+	} else if err2 != nil {
+		o.BodyErr = "second reader: " + err2.Error()
 	}
-	o.Body = string(b)
+	o.Body = string(head) + string(rest)
+	if o.BodyErr == "" && string(b2) != o.Body {
+		o.BodyErr = fmt.Sprintf("two readers of one message, read interleaved, disagree: the first read %d bytes, the second %d", len(o.Body), len(b2))
+	}
 	return o
 }
 
